@@ -1552,7 +1552,13 @@ impl Service {
                 // if a failed FindNodes request, ensure we haven't partially received packets. If
                 // so, process the partially found nodes
                 RequestBody::FindNode { ref distances } => {
-                    if let Some(nodes_response) = self.active_nodes_responses.remove(&id) {
+                    // A partial response that carried no nodes is a failure like any other: the
+                    // query must hear about it, otherwise it keeps waiting for this peer.
+                    if let Some(nodes_response) = self
+                        .active_nodes_responses
+                        .remove(&id)
+                        .filter(|response| !response.received_nodes.is_empty())
+                    {
                         if !nodes_response.received_nodes.is_empty() {
                             let node_id = active_request.contact.node_id();
                             let addr = active_request.contact.socket_addr();
